@@ -420,3 +420,32 @@ macro_rules! both_receivers_arr {
         }
     }};
 }
+
+// ---------------------------------------------------------------- robustness streams, part 2 (after the third round of seeded changes)
+
+/// shapes with 16 384 .. 140 000 elements (blocked / tiled / strided fast paths above 2^14, 2^15, 2^16 elements; extents that are
+/// not multiples of 32; one axis above 65 536).  Model drivers are list-backed: use these with a harness-native reference oracle that
+/// is validated against the model on every smaller case of the same run, or with operations whose model is linear.
+pub fn huge_shapes() -> Vec<Vec<usize>> {
+    vec![vec![130, 130], vec![100, 200], vec![129, 131], vec![16385], vec![33000], vec![70000], vec![2, 70000], vec![70000, 2],
+         vec![40, 30, 30], vec![10, 11, 12, 13], vec![5, 4, 10, 10, 10], vec![300, 300]]
+}
+
+/// pairs of shapes that collide under the classic weak polynomial hashes `h = h*m + dim` (m = 31, 33, 37, 131, 257, 65599) — a
+/// memoisation keyed by such a hash without an equality check returns the plan / count of the OTHER shape.  Execute the two
+/// members of a pair directly after one another, in both orders, in the same thread.
+pub fn collision_shape_pairs() -> Vec<(Vec<usize>, Vec<usize>)> {
+    let mut v = vec![];
+    for &m in &[31usize, 33, 37, 131, 257] {
+        for a in [2usize, 3, 5] { for b in [1usize, 2, 7] {
+            v.push((vec![a, b], vec![a - 1, b + m]));                 // a*m + b == (a-1)*m + (b+m)
+            v.push((vec![a, b, 2], vec![a - 1, b + m, 2]));
+            v.push((vec![2, a, b], vec![2, a - 1, b + m]));
+        } }
+    }
+    v
+}
+
+/// values that survive a narrowing cast to u8 / u16 / u32 as `c`: `c + 2^8`, `c + 2^16`, `c + 2^32` (an index or coordinate check done
+/// on a narrowed value accepts them)
+pub fn narrowing_images(c: usize) -> Vec<usize> { vec![c + (1 << 8), c + (1 << 16), c + (1usize << 32), c + (1usize << 32) * 3] }
